@@ -202,12 +202,22 @@ def run(facts):
         it = [i for i in im["items"] if i["name"] == "fmt"][0]
         b = facts.by_did[it["did"]]
         key = "%s for BytesRef" % tr
+        b0 = b
         sites, frame, probs = analyse_fmt(b, facts)
         if probs:
-            res.bad(key, b.loc(), "; ".join(probs))
+            # the loop (or the write) may live in a private helper / a closure handed to it: judge the inlined views
+            from .inline import views
+            for ib in views(facts, b0):
+                s2, f2, p2 = analyse_fmt(ib, facts)
+                if not p2:
+                    b, sites, frame, probs = ib, s2, f2, []
+                    break
+        if probs:
+            res.bad(key, b0.loc(), "; ".join(probs))
             continue
         tmpl = {}
-        for x in fa.get(b.did, []):
+        dids = {b0.did} | {blk.get("origin") for blk in b.blocks if blk.get("origin") is not None}
+        for x in [y for d in sorted(dids) for y in fa.get(d, [])]:
             ln = x["span"]["line"]
             if ln in tmpl:
                 probs.append("two format strings on line %d: cannot attribute templates" % ln)
